@@ -108,6 +108,13 @@ func runC01(env *Env, rc *RunCtx) {
 		w := func() map[string]any {
 			return desc(map[string]any{"schedule": r.Trace, "results": r.Outs, "request": reqs[0].Kind})
 		}
+		if !r.Returned && r.Outcome == DriveStepLimit {
+			// not a hang: the harness stopped releasing storage calls (exponential
+			// re-evaluation of duplicated operands); inconclusive, counted
+			rc.Count("inconclusive_step_limit", 1)
+			rc.Rec.Skipped = "step-limit"
+			return
+		}
 		if !r.Returned {
 			// a hang is C15's business; here it is "no answer"
 			rc.Violate("no-result", "hang", fmt.Sprintf("check did not return (outcome %d, %d calls)", r.Outcome, r.Calls), w(), e, et)
